@@ -293,6 +293,16 @@ def run(tier: str) -> int:
                                                                                 "expected": json.loads(json.dumps(exp, default=list)), "observed": r[1] if r[0] == "ok" else list(r)})
     log(f"[C02] G replayed {len(states)} codebase states ({n_e2e} end-to-end through check_command), {t.s()}s")
 
+    # L: one live Codebase, files added / put in again with reads in between (LiveCodebase.tla)
+    from .. import live
+
+    lm, lres = live.run(tier, wd, "C02")
+    for hist, exp, pure, r in lres:
+        clause = live.clause_c02(exp, pure, r[1]) if r[0] == "ok" else "Live:NormalReturn:" + (r[1] if r[0] == "exc" else "timeout")
+        if clause:
+            hh = [[h[0], list(h[1]), h[2]] for h in hist]
+            rep.fail({"clause": clause, "history": hh}, {"kind": "live", "hist": hh, "pure": pure, "expected": json.loads(json.dumps(exp, default=list)), "observed": r[1] if r[0] == "ok" else list(r)})
+
     sres = pmap(observe_single, SINGLE, timeout=30, workers=4)
     trace = wd / "c02_trace.ndjson"
     with open(trace, "w") as f:
@@ -330,6 +340,8 @@ def run(tier: str) -> int:
             "bounds": {"lengths": LENGTHS, "files": FILES, "max_functions": b["max_funcs"], "end_to_end_up_to_functions": b["e2e_funcs"], "end_to_end_states": n_e2e, "single_lengths": len(SINGLE)},
             "model": {"module": "Thresholds.tla", "invariants": invs, "actions": m.coverage},
             "acceptor": {"module": "ThresholdTrace.tla", "events": len(SINGLE), "rejected": len(rejected)},
+            "live_codebase": {"module": "LiveCodebase.tla", "states": lm.distinct, "histories": len(lres), "reads": sum(len(e) for _, e, _, _ in lres), "invariants": live.INVS + live.PROPS,
+                              "bounds": live.BOUNDS[tier]},
             "proved_lemmas": dict(lemmas, theorems=["CategoryTotal", "CategoryBoundaries", "CategoryMonotone", "FindingIffHardOrWorse"], scope="every natural length (unbounded)"),
             "model_drift": rep.drift, "known_findings_hit": sorted(rep.known),
         },
@@ -349,6 +361,19 @@ def replay(path: str) -> int:
         tr.write_text(json.dumps(dict(r[1], id=0, exc="")) + "\n")
         a = tlc.run("ThresholdTrace", tlc.cfg({"Files": "{1, 2}", "Lengths": "{2}", "MaxFuncs": 0}, spec="TSpec", postcondition="AllConsumed"), wd, workers=1, env={"TRACE_FILE": str(tr)}, coverage=False)
         bad = [p for p in a.prints if p.startswith('<<"REJECT"')]
+    elif case["kind"] == "live":
+        from .. import live
+
+        hist = tuple((h[0], tuple(h[1]), h[2]) for h in case["hist"])
+        r = guarded(live.replay_history, hist, 60)
+        print("observed:", r)
+        # the expectation is part of the case (computed by TLC in the run that found it); LiveCodebase.tla is re-run to confirm it
+        _, bs = live.behaviours("thorough" if len(hist) > live.BOUNDS["quick"]["ops"] else "quick", workdir(PROP, "replay"))
+        exp = next((e for h, e, _ in bs if h == hist), None)
+        if exp is None:
+            exp = case["expected"]
+        clause = live.clause_c02(exp, case["pure"], r[1]) if r[0] == "ok" else "Live:NormalReturn"
+        bad = [clause] if clause else []
     else:
         funcs = tuple(tuple(x) for x in case["funcs"])
         r = guarded(observe_state, (funcs, True), 60)
